@@ -117,7 +117,7 @@ myth_tls_call_destructors_rec(myth_tls_tree_node_t * n,
     for (i = 0; i < myth_tls_tree_node_n_entries_in_leaf; i++, k++) {
       void * val = n->entries[i].value;
       void (*destructor)(void *) = ka->keys[k].destructor;
-      if (destructor && val) {
+      if (destructor) {
 	n->entries[i].value = 0;
 	destructor(val);
 	s++;
